@@ -1,5 +1,6 @@
 """C06 - proved on the incoming-handler chain (see contracts/handlers_c.py and DESIGN.md section 8)."""
 from . import handlers_common as hc
+from . import handlers_native as hn
 
 PROP = "C06"
 MIN_OBLIGATIONS = 50
@@ -12,3 +13,27 @@ EXPLANATION = ("Every function between the leaf handlers and the dispatch is sym
 
 def build(world):
     return hc.build_for(world, PROP)
+
+
+def replay(world, ob):
+    return hn.replay(PROP, world, ob)
+
+
+def bounded(world, tier, seed, rep):
+    return hn.bounded(PROP, tier, seed, rep)
+
+
+def bounded_search(world, unit_name):
+    from pyvc import native
+    v = native.unit_version(unit_name)
+    found = hn.search(PROP, [v] if v else hn.VERS, seed=0, budget=600)
+    return [dict(found, clause=f"{PROP}/native-differential")] if found else []
+
+
+def rebuild_inlined(world, failing_helpers):
+    """Re-prove with the bodies of the functions whose helper clauses failed inlined into their callers."""
+    bad = {h["unit"].split("[")[0] for h in failing_helpers}
+    units = build(world)
+    for u in units:
+        u.no_contract_for = tuple(bad)
+    return units
